@@ -3,6 +3,7 @@ import vf
 vf.use_repo()
 from ak import llparser  # noqa: E402
 from vf.core import sig_of  # noqa: E402
+from vf import llmon  # noqa: E402
 
 ID = "C04"
 LEVEL = "exploration"
@@ -113,7 +114,8 @@ _PARSERS = {}
 def get_parser(cfg_id, smart=True):
     if (cfg_id, smart) not in _PARSERS:
         c = CONFIGS[cfg_id]
-        _PARSERS[cfg_id, smart] = llparser.LLParser(
+        # (the configuration containers are the caller's: after the construction he changes them, see make_llparser)
+        _PARSERS[cfg_id, smart] = llmon.make_llparser(
             c["tok"], productions={k: list(v) for k, v in c["prods"].items()}, synonyms=c["syn"],
             span_matchers=c["span"], keywords=KEYW, skip_tokens=c["skip"], smart_factorization=smart)
     return _PARSERS[cfg_id, smart]
@@ -379,6 +381,18 @@ def judge(ctx, cfg_id, pieces, form, case):
         return
     exp_leaves = [s for s in stream if s[0] not in skip]
     order = []  # leaves and empty nodes in document order
+    n_asked = [0]
+
+    def text_arg():
+        """the text as get_orig_text is given it: the object that was parsed, or the same lines as a tuple, a
+        one-shot iterator or a generator"""
+        n_asked[0] += 1
+        k = n_asked[0] % 5
+        if k in (0, 1):
+            return src
+        ctx.count("original_text_asked_with_the_text_in_another_form")
+        the_lines = text.split("\n")
+        return tuple(the_lines) if k == 2 else iter(the_lines) if k == 3 else (ln for ln in the_lines)
 
     def walk(node):
         if node.value is None and node.name in cfg["prods"]:
@@ -394,8 +408,8 @@ def judge(ctx, cfg_id, pieces, form, case):
             else:
                 want = slice_text(text, node.start_pos.coords, node.end_pos.coords)
                 try:
-                    got_txt = node.get_orig_text(src)
-                except AssertionError as err:
+                    got_txt = node.get_orig_text(text_arg())
+                except (AssertionError, IndexError) as err:
                     ctx.violation("get-orig-text-asserts", {"node": node.name, "msg": str(err)[:120]}, case)
                     return
                 if got_txt != want:
@@ -414,8 +428,8 @@ def judge(ctx, cfg_id, pieces, form, case):
     for leaf, (name, s, e, lexeme) in zip(leaves, exp_leaves):
         ctx.count("nodes_checked")
         try:
-            got_txt = leaf.get_orig_text(src)
-        except AssertionError as err:
+            got_txt = leaf.get_orig_text(text_arg())
+        except (AssertionError, IndexError) as err:
             ctx.violation("get-orig-text-asserts", {"node": name, "msg": str(err)[:120]}, case)
             continue
         if got_txt != lexeme:
